@@ -1035,11 +1035,11 @@ Proof.
   destruct (Z.ltb_spec (zlen args) na); [reflexivity|lia].
 Qed.
 
-Lemma au_child_kwname ms na args kws c vb sz bs : na <= zlen args ->
+Lemma au_child_kwname ms na args kws c vb sz bs : na <= zlen args -> utf8_valid bs = true ->
   au_child ms (aust na args kws None c) (WStr vb sz bs) =
   au_take (getKeywordArgConstraint ms (name_code bs) (firstn (Z.to_nat na) (names ms) ++ map fst kws))
           (fun c' => aust na args kws (Some (name_code bs)) c').
-Proof. intros H. unfold au_child. rewrite (au_stage_kw _ _ _ _ _ H). reflexivity. Qed.
+Proof. intros H T. unfold au_child. rewrite (au_stage_kw _ _ _ _ _ H), T. reflexivity. Qed.
 
 Lemma au_child_kwvalue ms na args kws n c w : na <= zlen args ->
   au_child ms (aust na args kws (Some n) c) w =
@@ -1068,23 +1068,24 @@ Proof.
   - rewrite !au_run_cons. unfold au_child. rewrite !(au_stage_kw _ _ _ _ _ H). reflexivity.
 Qed.
 
-Lemma kw_phase ms : forall kwsb na args kws, na <= zlen args ->
+Lemma kw_phase ms : forall kwsb na args kws, na <= zlen args -> names_text kwsb = true ->
   au_run ms (aust na args kws None None) (enc_kws kwsb) =
   match recv_kw ms (firstn (Z.to_nat na) (names ms) ++ map fst kws) (code_kws kwsb) with
   | KwOk l => doCall ms args (kws ++ l) | KwViol => CViol | KwAbort => CAbort
   end.
 Proof.
-  induction kwsb as [|[bs w] kwsb IH]; intros na args kws H.
+  induction kwsb as [|[bs w] kwsb IH]; intros na args kws H NT.
   - cbn [enc_kws flat_map code_kws map recv_kw au_run]. rewrite au_close_kw by exact H. rewrite app_nil_r. reflexivity.
-  - change (enc_kws ((bs, w) :: kwsb)) with (WStr false (zlen bs) bs :: w :: enc_kws kwsb).
+  - cbn [names_text forallb fst] in NT. apply andb_true_iff in NT as [NT1 NT2].
+    change (enc_kws ((bs, w) :: kwsb)) with (WStr false (zlen bs) bs :: w :: enc_kws kwsb).
     change (code_kws ((bs, w) :: kwsb)) with ((name_code bs, w) :: code_kws kwsb).
-    rewrite au_run_cons, au_child_kwname by exact H. cbn [recv_kw].
+    rewrite au_run_cons, au_child_kwname by assumption. cbn [recv_kw].
     destruct (getKeywordArgConstraint ms (name_code bs) (firstn (Z.to_nat na) (names ms) ++ map fst kws)) as [| |acc oc];
       cbn [au_take]; try reflexivity.
     destruct (au_asserts_accept && negb acc); [reflexivity|].
     rewrite au_run_cons, au_child_kwvalue by exact H.
     destruct (recvw oc w) as [x| |]; try reflexivity.
-    rewrite (kwname_ctr_irrelevant ms _ na args _ oc None H). rewrite IH by exact H.
+    rewrite (kwname_ctr_irrelevant ms _ na args _ oc None H). rewrite IH by assumption.
     rewrite map_app. cbn [map fst]. rewrite app_assoc.
     destruct (recv_kw ms _ (code_kws kwsb)) as [l| |]; try reflexivity. rewrite <- app_assoc. reflexivity.
 Qed.
@@ -1139,10 +1140,10 @@ Proof.
       * intros _. rewrite LA, NE. split; [reflexivity|]. apply nth_error_Some. rewrite NE. discriminate.
 Qed.
 
-Theorem recv_arguments_refines ms pos kwsb :
+Theorem recv_arguments_refines ms pos kwsb : names_text kwsb = true ->
   recv_arguments ms (enc_args pos kwsb) = recv_call ms pos (code_kws kwsb).
 Proof.
-  unfold recv_arguments, enc_args, recv_call. cbn [au_run]. unfold au_child, au_stage, au_init.
+  intros NT. unfold recv_arguments, enc_args, recv_call. cbn [au_run]. unfold au_child, au_stage, au_init.
   cbn [au_numargs au_args au_argname au_kwargs au_ctr]. rewrite Z.eqb_refl. cbn [negb].
   change au_count_zero_skips with true. cbn [andb]. change au_first_index with 0.
   assert (K : forall c, (pos <> [] -> c = option_map a_ctr (nth_error (ms_args ms) 0%nat) /\ (0 < List.length (ms_args ms))%nat) ->
@@ -1161,7 +1162,7 @@ Proof.
         destruct (recvw _ w); try discriminate. destruct (recv_pos ms pos0 (S i)) as [l'| |] eqn:R; try discriminate.
         inversion E; subst. cbn [List.length]. f_equal. eapply IH. exact R. }
       unfold zlen. rewrite (Gen _ _ _ RP). lia. }
-    rewrite (kw_phase ms kwsb (zlen pos) l [] LL). cbn [map app]. rewrite app_nil_r. unfold zlen at 1. rewrite Nat2Z.id.
+    rewrite (kw_phase ms kwsb (zlen pos) l [] LL NT). cbn [map app]. rewrite app_nil_r. unfold zlen at 1. rewrite Nat2Z.id.
     destruct (recv_kw ms _ (code_kws kwsb)); reflexivity. }
   destruct pos as [|w pos].
   - change (zlen []) with 0. cbn [Z.eqb]. apply (K None). intros C. contradiction C. reflexivity.
@@ -1181,9 +1182,9 @@ Definition voc1 := vocab_table 1.
 
 (* the honest sender's call as the receiver's machine sees it: count token, positional trees, (name, tree) pairs *)
 Corollary c12_call_stream : forall voc ms a kw, ms_wf ms -> args_guarded ms a kw ->
-  forall p k kb, send_call voc ms a kw = Some (p, k) -> code_kws kb = k ->
+  forall p k kb, send_call voc ms a kw = Some (p, k) -> code_kws kb = k -> names_text kb = true ->
   recv_arguments ms (enc_args p kb) = CInvoke a kw.
-Proof. intros voc ms a kw W G p k kb S <-. rewrite recv_arguments_refines. eapply c12_call; eassumption. Qed.
+Proof. intros voc ms a kw W G p k kb S <- NT. rewrite recv_arguments_refines by exact NT. eapply c12_call; eassumption. Qed.
 
 (* names 'a' 'b' 'c' 'z' as the model's identifiers *)
 Definition nA := name_code [97].  Definition nB := name_code [98].  Definition nC := name_code [99].  Definition nZ := name_code [122].
@@ -1511,10 +1512,28 @@ Proof.
   - left. rewrite (checkAllArgs_violation ms a kw e Hi Ha E). reflexivity.
 Qed.
 
-Corollary one_call_violation_stream ms pos kwsb : leaf_schema ms ->
+Corollary one_call_violation_stream ms pos kwsb : leaf_schema ms -> names_text kwsb = true ->
   recv_arguments ms (enc_args pos kwsb) = CViol \/
   exists a kw, recv_arguments ms (enc_args pos kwsb) = CInvoke a kw /\ checkAllArgs ms a kw = Ok tt.
-Proof. intros L. rewrite recv_arguments_refines. apply one_call_violation. exact L. Qed.
+Proof. intros L NT. rewrite recv_arguments_refines by exact NT. apply one_call_violation. exact L. Qed.
+
+(* a keyword name that is not text (bytes that are not UTF-8) fails that one call with a Violation -- whatever the schema,
+   flags included, and whatever follows it; before the repair (au_nontext_name_violation = false) the connection was lost *)
+Theorem nontext_name_violation ms na args kws c vb sz bs rest : na <= zlen args -> utf8_valid bs = false ->
+  au_run ms (aust na args kws None c) (WStr vb sz bs :: rest) = CViol.
+Proof.
+  intros H T. rewrite au_run_cons. unfold au_child. rewrite (au_stage_kw _ _ _ _ _ H), T. cbn [negb].
+  change au_nontext_name_violation with true. reflexivity.
+Qed.
+
+Example nontext_name_examples :
+  utf8_valid [168; 97] = false /\ utf8_valid [195; 169] = true /\ utf8_valid [192; 128] = false /\
+  utf8_valid [237; 160; 128] = false /\ utf8_valid [244; 144; 128; 128] = false /\ utf8_valid [240; 144; 128; 128] = true /\
+  recv_arguments (ms3 false false) [WInt 129 0 0; WStr false 2 [168; 97]; i5] = CViol /\
+  recv_arguments (ms3 true false) [WInt 129 1 1; i5; WStr false 2 [168; 97]; i5] = CViol /\      (* not the `assert accept` path *)
+  recv_arguments (ms3 true false) [WInt 129 1 1; i5; WStr false 2 [195; 169]; i5] = CAbort /\    (* a text name that is unknown *)
+  recv_arguments (ms3 false true) [WInt 129 1 1; i5; WStr false 2 [195; 169]; i5] = CFail.
+Proof. vm_compute. repeat split; reflexivity. Qed.
 
 Definition msL : mschema :=
   mkms [{| a_name := nA; a_ctr := CInt (Some (-1)); a_opt := false |}; {| a_name := nB; a_ctr := CBytes (Some 3) 1; a_opt := true |}] None.
